@@ -40,6 +40,7 @@ type (
 		Vars   []QVar
 		Body   Expr
 		Trig   []Expr
+		TrigAlt [][]Expr // further alternative patterns: { a } { b }
 	}
 	EOld struct{ X Expr }
 )
@@ -218,6 +219,20 @@ func (p *exprParser) parseQuant() Expr {
 			break
 		}
 		p.expect("}")
+		for p.isOp("{") {
+			p.pos++
+			var g []Expr
+			for {
+				g = append(g, p.parseImplies())
+				if p.isOp(",") {
+					p.pos++
+					continue
+				}
+				break
+			}
+			p.expect("}")
+			q.TrigAlt = append(q.TrigAlt, g)
+		}
 	}
 	q.Body = p.parseImplies()
 	return q
